@@ -63,6 +63,19 @@ Definition keys_of_store (st : vstore val) : kdb :=
 Definition store_eqb (a b : vstore val) : bool :=
   forallb (fun p => oval_eqb (st_get (fst p) a) (st_get (fst p) b)) (a ++ b).
 
+(* a history step: a mutation, or Store.Init with its seeds.  Init on a store that was not initialised before
+   writes the seeds whose id holds no value yet - a batch of creates, those of existing ids failing - and marks the
+   store initialised; on an initialised store it does nothing. *)
+Inductive step := SMut (m : mutation val) | SInit (seeds : list (bytes * val)).
+Fixpoint flatten_steps (inited : bool) (l : list step) : list (mutation val) * bool :=
+  match l with
+  | [] => ([], inited)
+  | SMut m :: r => let (ms, i') := flatten_steps inited r in (m :: ms, i')
+  | SInit seeds :: r =>
+    let (ms, i') := flatten_steps true r in
+    ((if inited then [] else map (fun p => MCreate (fst p) (snd p)) seeds) ++ ms, i')
+  end.
+
 Fixpoint run_idx {A} (f : A -> list N) (i : N) (cs : list A) : list (N * N) :=
   match cs with
   | [] => []
